@@ -42,6 +42,8 @@ def correspondence(ctx):
     # one round through the public rules (implementation-level oracle + histogram of rounds used)
     for h in sorted(rnd):
         cases.append(f'composed|nick|round|{h}')
+    for s_ in long_strings(ctx, FREE_ALPHA + [0xA8, 0xFDFA, 0x2163], (60 if ctx.tier == 'quick' else 3000)):
+        cases.append(f'prof|nick|enforce|f|b|{hexs(s_)}|')
     # every code point at which any table-driven behaviour changes, alone and next to an ASCII letter
     bc = boundary_cps(ctx, None if ctx.tier == 'quick' else 11)
     corr.count('boundary_code_points', len(bc))
